@@ -48,6 +48,7 @@ def mkStage (i : Nat) (cp pr eh : String) (req : Bool) (amp : Rat) : Stage Nat :
       | "nil" => some fun _ => .ok 900001          -- so is None
       | "raise" => some fun _ => .raise
       | "raise0" => some fun _ => .raise
+      -- "fok": a handler object whose own truth value is false is not consulted (`if stage.on_error:`): no handler
       | _ => none
     required := req
     amp := amp }
